@@ -16,7 +16,8 @@ from props import client_lib as CL
 MODEL = "clientrun"
 MODULE = "Model.ClientRun"
 PID = "C07"
-THEOREMS = ["C07_routing", "C07_coordinator_request", "C07_order", "C07_accounting", "C07_fallback_order"]
+THEOREMS = ["C07_routing", "C07_request_address", "C07_all_or_nothing", "C07_coordinator_request", "C07_order", "C07_order_acks0",
+            "C07_accounting", "C07_fallback_order", "C07_no_keyerror", "C07_no_keyerror_agnostic"]
 HOST_THEOREMS = ["C07_normalize_hosts_sorted", "C07_normalize_hosts_dedup", "C07_normalize_hosts_members",
                  "C07_normalize_hosts_idempotent", "C07_normalize_hosts_order_irrelevant"]
 
